@@ -5,5 +5,6 @@ pub mod c12;
 pub mod c17;
 pub mod c31;
 pub mod progen;
+pub mod jqrun;
 pub mod alloc;
 pub mod driver;
